@@ -1,4 +1,4 @@
 SPECIFICATION SpecC
 CONSTANT Tier = "thorough"
-INVARIANTS MeasLaw PredLaw AccLaw
+INVARIANTS MeasLaw PredLaw AccLaw MagxLaw
 CHECK_DEADLOCK FALSE
